@@ -349,7 +349,7 @@ def prepare(tier, seed):
     global _CASES
     _CASES = None
     if tier == "quick":
-        return 600
+        return 1000
     _CASES = [{"mode": "table", "bits": b, "prefix": p, "full": True} for b in range(128) for p in range(4)]
     return len(_CASES) + 8000
 
